@@ -15,7 +15,7 @@ import (
 
 func init() {
 	Register("C18", func(rc *RunCtx) {
-		cfg := GenQCfg(rc.Tape, QProfile{ForceReal: true, ShapeFaults: true, Corrupt: true, RefNames: true})
+		cfg := GenQCfg(rc.Tape, QProfile{ForceReal: true, ShapeFaults: true, Corrupt: true, RefNames: true, Redirects: true})
 		cfg.OfferHeaders = true
 		qr := RunQueue(rc, cfg)
 		CheckC18(rc, qr)
